@@ -38,6 +38,9 @@ func FromStream(stream *glyphdata.Stream) (*type1.Font, error) {
 	}
 
 	r, w := io.Pipe()
+	// Closing the read end unblocks the writer goroutine if the parser
+	// stops before all data has been consumed.
+	defer r.Close()
 	var t1Font *type1.Font
 	var parseErr error
 
